@@ -2,6 +2,7 @@
    change-range cache part.  Statements only. *)
 From YV Require Import Cache.ChangeStore Proofs.ChangeStoreProofs.
 From YV Require Import Cache.SnapCache Proofs.SnapCacheProofs.
+From YV Require Import Cache.SnapGC Proofs.SnapGCProofs.
 
 (* After ANY sequence of EnsureChanges (succeeding, or with a fetcher that fails on any of its
    calls: cop's CEnsureFail) / ExpandRange / ReplaceOrInsert calls and
@@ -99,3 +100,31 @@ Theorem C20_unguarded_cache_refuted :
       <> replay (list nat) nat snoc [] log n.
 Proof. exact unguarded_refuted. Qed.
 Print Assumptions C20_unguarded_cache_refuted.
+
+(* ---- the rebuild's garbage collection over time (Cache/SnapGC.v): why only a document built
+   at the head may be cached (finding P55) ---- *)
+
+(* [hz T]: how far the minimum version vector reaches when the log has T rows; [dep j]: what the
+   author of row j knew.  If the horizon only grows and every row stored after time k was made
+   knowing what the minimum vector covered at time k (C03_minimum_vector_is_safe, part A, as a
+   premise here), then under the repaired rule no rebuild — at any sequence, from any cache
+   content reachable by pushes, evictions and rebuilds — meets a row it cannot apply. *)
+Theorem C20_cache_at_head_never_blocks_a_rebuild : forall dep hz : nat -> nat,
+  (forall a b, a <= b -> hz a <= hz b) ->
+  (forall k j, k < j -> hz k <= dep j) ->
+  forall ops, g_failed (fold_left (gstep dep hz keep_fixed) ops gsys0) = false.
+Proof. exact fixed_rule_never_fails. Qed.
+Print Assumptions C20_cache_at_head_never_blocks_a_rebuild.
+
+(* the premises are satisfiable, and by the very instance that refutes the pinned tree's rule *)
+Theorem C20_gc_witness_premises :
+  (forall a b, a <= b -> whz a <= whz b) /\ (forall k j, k < j -> whz k <= wdep j).
+Proof. exact witness_premises. Qed.
+Print Assumptions C20_gc_witness_premises.
+
+(* the pinned tree cached whatever it built: a rebuild at an older sequence leaves an entry
+   collected with the present horizon, and the rebuild of the head from it fails (P55) *)
+Theorem C20_cache_any_rebuild_refuted :
+  g_failed (fold_left (gstep wdep whz keep_always) [GPush; GPush; GPush; GBuild 2 0; GBuild 3 0] gsys0) = true.
+Proof. exact always_rule_refuted. Qed.
+Print Assumptions C20_cache_any_rebuild_refuted.
